@@ -83,7 +83,8 @@ func c16ModesOf(t *hTx) ([]c16Mode, bool) {
 	}
 	// a plain transaction that names its ENTRY POINT (pseudo veto @ep, store_c16w5.go) runs through c16RunTx as well: every
 	// operation through the base context, nothing swallowed, no decoration
-	if _, ok := c16w5EntryOf(t); ok {
+	// ... and so does one whose creates / updates are followed by link-count increments (pseudo veto @rc, store_c16w7.go)
+	if _, ok := c16w5EntryOf(t); ok || c16w7Has(t) {
 		ms := make([]c16Mode, len(t.Ops))
 		for i := range ms {
 			ms[i] = c16Mode{Ctx: 'b', Deco: '-'}
@@ -319,6 +320,12 @@ func (h *harnessDb) c16RunTx(t *hTx, modes []c16Mode) string {
 				e = h.c16ExecOp(ctx, op, m)
 			}
 			results = append(results, classify(e))
+			if e == nil {
+				// link counts on the entity just written (store_c16w7.go; set-up through the tx-level link API)
+				if re := h.c16w7Seed(ctx.Tx(), op, c16w7CountOf(t, i)); re != nil {
+					panic(re)
+				}
+			}
 			if e != nil {
 				if !swallowable {
 					return e
